@@ -738,3 +738,64 @@ def returned_vars(fn):
         if v.get('k') == 'var':
             out.add(v['v'])
     return out
+
+
+# ---------------------------------------------------------------------------------------------
+# path exploration with a small abstract state (product construction): used where a rule must correlate a branch on a
+# variable (`if (result)`) with what happened to that variable earlier on the same path
+# ---------------------------------------------------------------------------------------------
+def product_walk(fn, init, elem_tr, edge_tr=None, start_block=None, limit=200000):
+    """explore all (block, state) pairs reachable from the entry (or start_block) with state `init`.
+    elem_tr(state, pos, e) -> state ; edge_tr(state, b, si) -> state | None (None = edge infeasible in that state).
+    Returns {(block, state_in)}: parent (block, state) (for witnesses)."""
+    start = fn.entry if start_block is None else start_block
+    seen = {(start, init): None}
+    work = [(start, init)]
+    while work:
+        if len(seen) > limit:
+            raise AnalysisBroken('product_walk explodes in %s' % fn.q)
+        b, st0 = work.pop()
+        st = st0
+        blk = fn.blocks[b]
+        for i, e in enumerate(blk['e']):
+            st = elem_tr(st, (b, i), e)
+        if blk.get('noret'):
+            continue
+        for si, s in enumerate(blk['succ']):
+            if s is None:
+                continue
+            st2 = edge_tr(st, b, si) if edge_tr else st
+            if st2 is None:
+                continue
+            if (s, st2) not in seen:
+                seen[(s, st2)] = (b, st0)
+                work.append((s, st2))
+    return seen
+
+
+def var_truth_tracker(fn, vid):
+    """(elem_tr, edge_tr) pieces tracking what a path knows about the truth value of local variable `vid`:
+    'T' / 'F' / 'U'.  Definitions by a constant give T/F, any other definition gives U; branch atoms on the variable
+    refine the state and prune contradicting edges."""
+    defs = Defs(fn)
+
+    def on_elem(state, e):
+        if isinstance(e, int) and e in defs.defs_at:
+            for v, dn, val in defs.defs_at[e]:
+                if v == vid:
+                    c = fn.cv(val) if val is not None else None
+                    if c is None and val is not None and fn.n(fn.strip(val)).get('null'):
+                        c = 0
+                    return 'U' if c is None else ('T' if c else 'F')
+        return state
+
+    def on_edge(state, b, si):
+        for (s, truth) in fn.edge_conds(b, si):
+            n = fn.n(fn.strip(s))
+            if n.get('k') == 'var' and n.get('v') == vid:
+                want = 'T' if truth else 'F'
+                if state != 'U' and state != want:
+                    return None
+                state = want
+        return state
+    return on_elem, on_edge
